@@ -495,7 +495,7 @@ def main():
         train_text = test_text
 
         # remove the word separators for testing
-        test_text = prepare(test_text)
+        test_text = prepare(test_text, separator=separator, unit=args.unit)
 
     # train the model (learn diphone statistics)
     trained_model = CorpusSummary(
